@@ -14,7 +14,7 @@ from ..models import query_model as Q
 
 
 class Index:
-    def __init__(self, files: dict[str, str], day: dt.date, tag: str = "ix") -> None:
+    def __init__(self, files: dict[str, str], day: dt.date, tag: str = "ix", allow_shared_zids: bool = False) -> None:
         self.day = day
         self.zdir = Z.make_zdir(files, tag)
         r = Z.db_create(self.zdir, day)
@@ -26,6 +26,9 @@ class Index:
         if after != {k: v for k, v in files.items()}:
             raise H.HarnessError("corpus files were rewritten by db create (every note must carry a ZID)")
         self.raw = IR.read_index(self.zdir)
+        if allow_shared_zids:
+            # a note line copied to another page: the same ZID on two note rows is the corpus' point
+            self.raw["problems"] = [p for p in self.raw["problems"] if not (p.startswith("ZID ") and " note rows" in p)]
         if self.raw["problems"]:
             raise H.HarnessError(f"corpus index has structural problems: {self.raw['problems']}")
         self.universe = Q.Universe(self.raw["notes"])
